@@ -94,7 +94,11 @@ func exec1(v avfs.VFS, c fsx.Call, users map[string]avfs.UserReader) result {
 	case "MkdirAll":
 		return errResult(v.MkdirAll(c.A, perm))
 	case "WriteFile":
-		return errResult(v.WriteFile(c.A, []byte(c.Data), perm))
+		data := []byte(c.Data)
+		err := v.WriteFile(c.A, data, perm)
+		fsx.Scribble(data)
+
+		return errResult(err)
 	case "OpenFile":
 		f, err := v.OpenFile(c.A, c.Flag, perm)
 		if err == nil {
@@ -157,6 +161,7 @@ func exec1(v avfs.VFS, c fsx.Call, users map[string]avfs.UserReader) result {
 		b, err := v.ReadFile(c.A)
 		r := errResult(err)
 		r.Val = fmt.Sprintf("%q", b)
+		fsx.Scribble(b) // a returned slice is the caller's: no file may change with it
 
 		return r
 	case "SetUser":
